@@ -351,7 +351,7 @@ m("c13-timestamp-not-updated", "C13", "x/coinomics/keeper/inflation.go",
   "\t// Update the previous block timestamp for the next cycle.\n\tk.SetPrevBlockTS(ctx, currentBlockTS.RoundInt())\n", "",
   "MintAndAllocate#timestamp-updated", "elapsed grows every block: each block mints for the whole time since activation")
 m("c13-cap-ignores-blockmint", "C13", "x/coinomics/keeper/inflation.go",
-  "\tif bankTotalSupply.Add(blockMint).GT(maxSupply) {", "\tif bankTotalSupply.GT(maxSupply) {",
+  "\tif blockMint.Ceil().RoundInt().GT(remaining) {", "\tif sdk.ZeroInt().GT(remaining) {",
   "MintAndAllocate#cap-comparison", "cap only triggers once the supply is already above the maximum")
 m("c13-mint-ceil", "C13", "x/coinomics/keeper/inflation.go",
   "totalMintOnBlockCoin := sdk.NewCoin(params.MintDenom, blockMint.RoundInt())", "totalMintOnBlockCoin := sdk.NewCoin(params.MintDenom, blockMint.Ceil().RoundInt())",
@@ -592,7 +592,7 @@ m("c12-transfer-walks-holdings", "C12", "x/ucdao/keeper/keeper.go",
   "\t\tok, foundInBalance := balances.Find(coin.Denom)\n\t\tif !ok {\n\t\t\tcontinue\n\t\t}\n",
   "every-requested-coin-checked", "a requested denomination the owner does not hold is credited without being debited")
 m("c13-zero-cap-unlimited", "C13", "x/coinomics/keeper/inflation.go",
-  "\tif bankTotalSupply.Add(blockMint).GT(maxSupply) {", "\tif maxSupply.IsPositive() && bankTotalSupply.Add(blockMint).GT(maxSupply) {",
+  "\tif blockMint.Ceil().RoundInt().GT(remaining) {", "\tif k.GetMaxSupply(ctx).IsPositive() && blockMint.Ceil().RoundInt().GT(remaining) {",
   "cap-compared-before-every-mint", "a zero maximum supply switches the cap off")
 m("c15-blocked-skips-permissionless", "C15", "app/app.go",
   "\tfor _, acc := range accs {\n\t\tblockedAddrs[authtypes.NewModuleAddress(acc).String()] = true\n\t}", "\tfor _, acc := range accs {\n\t\tif len(maccPerms[acc]) == 0 {\n\t\t\tcontinue\n\t\t}\n\t\tblockedAddrs[authtypes.NewModuleAddress(acc).String()] = true\n\t}",
@@ -875,6 +875,13 @@ m("c04-erc20-approve-granter-spender", "C04", "precompiles/erc20/approve.go",
 m("c04-erc20-send-for-any-transfer", "C04", "precompiles/erc20/tx.go",
   "\tif ownerIsSpender {\n\t\tmsgSrv := bankkeeper.NewMsgServerImpl(p.bankKeeper)", "\tif ownerIsSpender || amount.Sign() == 0 {\n\t\tmsgSrv := bankkeeper.NewMsgServerImpl(p.bankKeeper)",
   "send-only-when-caller-is-the-owner", "a second condition opens the grant-less route")
+m("c13-max-supply-through-dec", "C13", "x/coinomics/keeper/inflation.go",
+  "\tremaining := k.GetMaxSupply(ctx).Amount.Sub(k.bankKeeper.GetSupply(ctx, params.MintDenom).Amount)\n",
+  "\tmaxSupplyDec, _ := sdk.NewDecFromStr(k.GetMaxSupply(ctx).Amount.String())\n\tremaining := maxSupplyDec.TruncateInt().Sub(k.bankKeeper.GetSupply(ctx, params.MintDenom).Amount)\n",
+  "unchecked-NewDecFromStr", "the configured maximum passes a fallible conversion whose error is dropped")
+m("c13-cap-compares-truncated-mint", "C13", "x/coinomics/keeper/inflation.go",
+  "\tif blockMint.Ceil().RoundInt().GT(remaining) {", "\tif blockMint.TruncateInt().GT(remaining) {",
+  "single-rounding", "the cap comparison truncates where the mint rounds")
 for prop in ("C16", "C07"):
     m("c%s-gas-meter-without-precharge" % prop[1:], prop, "precompiles/common/precompile.go",
       "sdk.NewGasMeter(initialGas + contract.Gas)", "sdk.NewGasMeter(contract.Gas)",
